@@ -93,13 +93,25 @@ def digest_of(obj):
 # ----------------------------------------------------------------------------- scratch
 
 _SCRATCH_BASE = None
+_SCRATCH_OWNER = None
 
 
 def scratch_base():
-    global _SCRATCH_BASE
+    global _SCRATCH_BASE, _SCRATCH_OWNER
     if _SCRATCH_BASE is None:
-        parent = "/dev/shm" if os.path.isdir("/dev/shm") and os.access("/dev/shm", os.W_OK) else None
-        _SCRATCH_BASE = tempfile.mkdtemp(prefix="verif-", dir=parent)
+        inherited = os.environ.get("VERIF_SCRATCH_BASE")
+        if inherited and os.path.isdir(inherited):
+            # created by an ancestor process (the driver): pool workers, forked lifetimes and fresh interpreters all
+            # work beneath it, and the driver removes it at the end
+            _SCRATCH_BASE = inherited
+        else:
+            parent = "/dev/shm" if os.path.isdir("/dev/shm") and os.access("/dev/shm", os.W_OK) else None
+            _SCRATCH_BASE = tempfile.mkdtemp(prefix="verif-", dir=parent)
+            _SCRATCH_OWNER = os.getpid()
+            os.environ["VERIF_SCRATCH_BASE"] = _SCRATCH_BASE
+        # temporary directories the library itself creates (staging directories of on-disk partitions) live there too
+        tempfile.tempdir = _SCRATCH_BASE
+        os.environ["TMPDIR"] = _SCRATCH_BASE
     return _SCRATCH_BASE
 
 
@@ -114,10 +126,14 @@ def new_scratch(tag="r"):
 
 
 def cleanup_scratch():
-    global _SCRATCH_BASE
-    if _SCRATCH_BASE is not None:
+    global _SCRATCH_BASE, _SCRATCH_OWNER
+    if _SCRATCH_BASE is not None and _SCRATCH_OWNER == os.getpid():
         shutil.rmtree(_SCRATCH_BASE, ignore_errors=True)
         _SCRATCH_BASE = None
+        _SCRATCH_OWNER = None
+        tempfile.tempdir = None
+        os.environ.pop("TMPDIR", None)
+        os.environ.pop("VERIF_SCRATCH_BASE", None)
 
 
 # ----------------------------------------------------------------------------- lifetimes
@@ -178,6 +194,9 @@ def lifetime(fn, timeout=None):
     raw = b"".join(chunks)
     for d in reversed(_RECENT):      # scratch paths are random: keep them out of event logs and digests
         raw = raw.replace(d.encode(), b"<root>")
+    if _SCRATCH_BASE:                # ... including scratch directories made inside the child
+        import re
+        raw = re.sub(re.escape(_SCRATCH_BASE.encode()) + rb"/[A-Za-z0-9]+-[A-Za-z0-9_]{8}", b"<root>", raw)
     for line in raw.decode().splitlines():
         try:
             events.append(json.loads(line))
@@ -375,6 +394,7 @@ def main_check(mod, argv):
     seed = int(os.environ.get("VERIF_SEED", "0"))
     print("VERIF_SEED=%d property=%s tier=%s repo=%s hashseed=%s" % (
         seed, prop, a.tier, REPO, os.environ.get("PYTHONHASHSEED")), flush=True)
+    scratch_base()      # before any worker or lifetime is forked: they all inherit it
     try:
         if a.replay:
             return _main_replay(mod, a.replay, a.rewrite)
